@@ -437,8 +437,20 @@ func doneScenario(i int) (cont bool) {
 	// quiesce the second sleeper too, under the same canary
 	select {
 	case <-fd:
-		s2.Done()
-		canaryOverwrite(s2)
+		d2 := make(chan struct{})
+		go func() { s2.Done(); close(d2) }()
+		select {
+		case <-d2:
+			canaryOverwrite(s2)
+		case <-time.After(20 * time.Second):
+			// every asserter has returned; nobody can complete a pending assertion any more
+			if g := s2.VerifWaitingG(); g > 1 {
+				run.Violation("C19/done/reattached-waker-never-arrives", fmt.Sprintf("Done on the second sleeper waits forever (G %#x parked) for a waker whose in-flight assertion went elsewhere, although every Assert call has returned", g), i)
+			} else {
+				run.Inconclusive("done-watchdog")
+			}
+			return false
+		}
 	default:
 	}
 	run.Case(fw.Hash("done", nw, na, h[0]), true)
